@@ -22,9 +22,38 @@
 // C++ Standard Library includes
 #include <algorithm>
 #include <stdexcept>
+#include <string>
+#include <vector>
 
 
 namespace celma::container {
+
+
+namespace {
+
+
+/// Returns the size that the bit vector should get so that it includes the
+/// given position, with some room for the positions that follow.<br>
+/// Computed with integers: the result of a floating point multiplication does
+/// not fit back into a size_t for very large positions.
+///
+/// @param[in]  pos  The position that must exist afterwards.
+/// @return  The new size for the vector.
+/// @throw  std::length_error if the position is too big for a vector.
+/// @since  x.y.z, 01.10.2026
+size_t sizeForPosition( size_t pos)
+{
+
+   if (pos >= std::vector< bool>().max_size() / 2)
+      throw std::length_error( "position " + std::to_string( pos)
+         + " is too big for a dynamic bitset");
+
+   return pos + 1 + (pos + 1) / 2;
+} // sizeForPosition
+
+
+} // namespace
+
 
 
 
@@ -192,7 +221,7 @@ DynamicBitset& DynamicBitset::set( size_t pos, bool value)
 {
 
    if (pos >= mData.size())
-      mData.resize( (pos + 1) * 1.5);
+      mData.resize( sizeForPosition( pos));
 
    mData[ pos] = value;
 
@@ -223,8 +252,8 @@ DynamicBitset& DynamicBitset::reset() noexcept( true)
 DynamicBitset& DynamicBitset::reset( size_t pos)
 {
 
-   if (pos > mData.size())
-      mData.resize( (pos + 1) * 1.5);
+   if (pos >= mData.size())
+      mData.resize( sizeForPosition( pos));
 
    mData[ pos] = false;
 
@@ -255,8 +284,8 @@ DynamicBitset& DynamicBitset::flip() noexcept( true)
 DynamicBitset& DynamicBitset::flip( size_t pos)
 {
 
-   if (pos > mData.size())
-      mData.resize( (pos + 1) * 1.5);
+   if (pos >= mData.size())
+      mData.resize( sizeForPosition( pos));
 
    mData[ pos] = !mData[ pos];
 
@@ -368,8 +397,8 @@ bool DynamicBitset::operator []( size_t pos) const noexcept( false)
 DynamicBitset::reference DynamicBitset::operator []( size_t pos) noexcept( true)
 {
 
-   if (pos > mData.size())
-      mData.resize( (pos + 1) * 1.5);
+   if (pos >= mData.size())
+      mData.resize( sizeForPosition( pos));
 
    return mData[ pos];
 } // DynamicBitset::operator []
